@@ -23,6 +23,7 @@ type c09Scn struct {
 	Extra    string `json:"extra"`
 	Sid      string `json:"sid"`
 	Echo     bool   `json:"echo"`
+	Tail     string `json:"tail"`
 	Class    string `json:"class"`
 	Selected string `json:"selected"`
 	Seg      string `json:"seg,omitempty"`
@@ -36,6 +37,10 @@ func c09Run(s *c09Scn, segName string) verdict {
 	switch s.Extra {
 	case "ordinary":
 		caps = append(caps, "urn:ietf:params:netconf:capability:candidate:1.0", "http://example.com/yang?module=a&revision=2020-01-01")
+	case "many":
+		for k := 0; k < 40; k++ {
+			caps = append(caps, fmt.Sprintf("http://example.com/yang/module-%02d?module=module-%02d&amp;revision=2021-03-%02d", k, k, 1+k%28))
+		}
 	case "lookalike":
 		caps = append(caps, "urn:ietf:params:netconf:base:1.10", "urn:vendor:x:urn:ietf:params:netconf:base:1.1:ext", "urn:ietf:params:netconf:base:1.0.1")
 	}
@@ -49,6 +54,10 @@ func c09Run(s *c09Scn, segName string) verdict {
 	}
 
 	hello := simdev.HelloXML(caps, s.Sid, s.Prefix, s.Layout != "oneline", s.Layout == "decl")
+	if s.Tail == "nl" {
+		hello += "\n"
+	}
+
 	pref := s.Pref
 
 	if pref == "none" {
